@@ -164,6 +164,10 @@ def single_violations(net, rng):
         variant("only4", drop=op)                                                                                  # (4)
     for op in [op for op in net.ops if op[0] == "dest"][:1]:
         variant("only5", drop=op)                                                                                  # (5)
+    for op in [op for op in net.ops if op[0] == "dest" and indeg.get(op[2], 0) == 1][:1]:
+        # (5) with something else attached: the destination of a sink node replaced by an on-ramp (ramps may have
+        # entering links, so nothing else is violated)
+        variant("only5-ramp", drop=op, extra_ops=[("origin", new_o, op[2])], origins=[(new_o, rng.choice(["ramp_out", "simp_lim"]))])
     for dn in dnodes[:1]:
         variant("both2", extra_ops=[("origin", new_o, dn)], origins=[(new_o, "ramp_out")])                         # (2)
     if edges:
